@@ -60,7 +60,8 @@ def check_case(fn, recipe, script, focus, contexts, rec=None, other=None):
     life overlaps the main probe's activation without being nested in it:
       'fifo'  other on, main on, other off, call, main off
       'inner' main on, other on, other off, call, main off
-      'late'  main on, other on, call, main off, other off"""
+      'late'  main on, other on, call, main off, other off
+    or ('raw', []): a single probe in raw mode whose events are read after the run."""
     from ptera import probing
 
     src = PG.render(fn)
@@ -85,6 +86,12 @@ def check_case(fn, recipe, script, focus, contexts, rec=None, other=None):
             if other is None:
                 with probing(sel, env={"f": f}).values() as got:
                     out = PR.run_call(f, fn, recipe, glb, script)
+            elif other[0] == "raw":
+                # raw mode: the events are mappings of Capture objects, kept and read only
+                # after the run - each must still be a record of the moment it was delivered
+                with probing(sel, env={"f": f}, raw=True).values() as rawgot:
+                    out = PR.run_call(f, fn, recipe, glb, script)
+                got = [{k: cap.value for k, cap in ev.items()} for ev in rawgot]
             else:
                 order, onames = other
                 main = probing(sel, env={"f": f})
@@ -208,7 +215,9 @@ def strategy(flags=None):
             if c not in contexts:
                 contexts.append(c)
         other = None
-        if draw(st.integers(0, 3)) == 0:
+        if draw(st.integers(0, 7)) == 0:
+            other = ("raw", [])
+        elif draw(st.integers(0, 3)) == 0:
             opool = [n for n in cands if n != focus] or [focus]
             onames = []
             for _ in range(draw(st.integers(1, 2))):
